@@ -124,6 +124,49 @@ class Bench:
     self.world.destroy()
 
 
+class SplitBench(Bench):
+  """The unmodified DistributedPythiaVizierServer on the simulated network, under the scheduler.
+
+  Client threads call through the Vizier stub; the Vizier server calls the separate Pythia server through
+  a stub, and Pythia's policy supporter calls back into the Vizier server. The servers' executor sizes and
+  concurrent-RPC limits are modelled by simnet (calibrated against real gRPC).
+  """
+
+  def __init__(self, cfg):  # pylint: disable=super-init-not-called
+    from simkit import deploy  # pylint: disable=g-import-not-at-top
+    from simkit import simnet  # pylint: disable=g-import-not-at-top
+    self.cfg = cfg
+    self.net = simnet.Net()
+    self._ctx = simnet.installed(self.net)
+    self._ctx.__enter__()
+    factory = P.base_factory(cfg) if cfg.get('algorithm') == 'SEQUENCE' else None
+    with conc.shims_installed():
+      self.dep = deploy.Deployment('split', cfg, self.net, policy_factory=factory, backend='ram')
+    sv = self.dep.servicer
+    self.sv = sv
+    self.client = self.dep.service
+    self.real_ds = sv.datastore
+    sv.datastore = conc.DSProxy(self.real_ds)
+    sv.default_pythia_service = conc.PythiaProxy(sv.default_pythia_service)
+    self.saved = None
+    self.prefix_concrete = []
+    self.world = None
+
+  def restore(self):
+    if self.saved is None:
+      raise RuntimeError('split bench: datastore internals changed, no snapshot available')
+    Bench.restore(self)
+    for srv in self.net.all_servers:
+      srv.reset_concurrency()
+
+  def destroy(self):
+    self.sv.datastore = self.real_ds
+    try:
+      self.dep.destroy()
+    finally:
+      self._ctx.__exit__(None, None, None)
+
+
 def tcontent(t):
   return tuple((k, O.freeze(t[k])) for k in ('state', 'params', 'meas', 'final', 'client', 'reason', 'md'))
 
@@ -220,7 +263,8 @@ class C04(runner.Check):
   min_budget_runs = 120
   min_budget_s = 120
   probes = ['sched.blocked-on-lock', 'probe.rmw-window-entered', 'sched.policy.sticky',
-            'sched.policy.pct', 'sched.policy.targeted', 'probe.over-delivering-algorithm']
+            'sched.policy.pct', 'sched.policy.targeted', 'probe.over-delivering-algorithm',
+            'probe.split-deployment-batch']
 
   def gen(self, rng, idx, tier):
     backend = rng.choice(['ram'] * 5 + ['sqlmem'])
@@ -293,6 +337,26 @@ class C04(runner.Check):
           ['CreateTrial', {'study': s1, 'x': 3, 'tkind': 'plain'}],
           ['UpdateMetadata', {'study': s1, 'items': [{'trial': None, 'ns': 1, 'key': 2, 'value': ['S', 'x']}]}]])
       batch = [failing, other] + ([rng.choice([other, failing])] if nb == 3 else [])
+    if 0.30 <= r < 0.37:
+      # the split deployment (separate Pythia server) under concurrent clients of one or two studies
+      backend = cfg['backend'] = 'ram'
+      cfg['deploy'] = 'split'
+      cfg.pop('over', None)
+      s0, s1 = {'o': 0, 'd': 0}, {'o': 0, 'd': 1}
+      prefix = prefix + [['CreateStudy', {'o': 0, 'd': 1, 'state': 'ACTIVE'}],
+                         ['SuggestTrials', {'study': s1, 'n': 1, 'worker': 1}]]
+      batch = []
+      for i in range(nb):
+        st = rng.choice([s0, s1])
+        k2 = rng.choice(['SuggestTrials', 'SuggestTrials', 'SuggestTrials', 'CheckES', 'CreateTrial', 'CompleteTrial'])
+        if k2 == 'SuggestTrials':
+          batch.append([k2, {'study': st, 'n': rng.choice([1, 2]), 'worker': 2 + i % 2}])
+        elif k2 == 'CheckES':
+          batch.append([k2, {'study': st, 'trial': {'pref': 'active', 'i': rng.randrange(3)}}])
+        elif k2 == 'CreateTrial':
+          batch.append([k2, {'study': st, 'x': rng.randrange(50), 'tkind': 'plain'}])
+        else:
+          batch.append([k2, {'study': st, 'trial': {'pref': 'active', 'i': rng.randrange(3)}, 'ckind': 'final', 'v': 1, 'w': 1}])
     ns = 20 if tier == 'quick' else 60
     if backend != 'ram':
       ns = max(4, ns // 4)
@@ -333,7 +397,7 @@ class C04(runner.Check):
     clk = simclock.SimClock(epoch=cfg.get('epoch', simclock.EPOCH))
     ent = simclock.Entropy(plan.get('entropy', 0))
     with simclock.installed(clk, ent):
-      bench = Bench(cfg)
+      bench = SplitBench(cfg) if cfg.get('deploy') == 'split' else Bench(cfg)
       try:
         self._run(plan, res, bench, clk)
       finally:
@@ -374,23 +438,28 @@ class C04(runner.Check):
     bkinds = [c['kind'] for c in batch]
     res.log.append(['batch', O.jsonable(batch)])
 
+    split = cfg.get('deploy') == 'split'
+    if split:
+      res.bump('probe.split-deployment-batch')
     serial = {}
     for order in itertools.permutations(range(len(batch))):
       bench.restore()
       sv = bench.sv
+      via = bench.client if split else sv  # clients of the split deployment talk to the Vizier stub
       outs = [None] * len(batch)
       for i in order:
-        outs[i] = O.outcome_norm(batch[i]['kind'], O.execute(sv, batch[i], cfg))
+        outs[i] = O.outcome_norm(batch[i]['kind'], O.execute(via, batch[i], cfg))
       serial[canon(bkinds, outs, observe(sv), old)] = order
     res.bump('serial.reference-runs', len(serial))
 
     for si, spec in enumerate(plan['scheds']):
       bench.restore()
       sv = bench.sv
+      via = bench.client if split else sv
       explicit = spec.get('explicit')
       s = conc.Sched(policy=spec, explicit=explicit)
       for i, c in enumerate(batch):
-        s.spawn(f'T{i}', (lambda c=c: O.execute(sv, c, cfg)))
+        s.spawn(f'T{i}', (lambda c=c: O.execute(via, c, cfg)))
       status = s.run()
       res.bump('sched.policy.' + ('explicit' if explicit is not None else spec.get('kind', 'sticky')))
       res.bump('sched.steps', s.steps)
@@ -444,7 +513,7 @@ class C04(runner.Check):
           if clause not in seen:
             seen.add(clause)
             res.violate(clause, f'{detail} | batch={[c["kind"] for c in batch]} schedule#{si}',
-                        sig={'kinds': list(kinds), 'store': 'ram' if cfg['backend'] == 'ram' else 'sql',
+                        sig={'kinds': list(kinds), 'store': ('split-deployment' if split else 'ram') if cfg['backend'] == 'ram' else 'sql',
                              'deleted_id_reused_in_batch': id_reused})
         # make the plan replayable with the explicit schedule only
         res.explicit = {'index': si, 'choices': list(s.choices)}
